@@ -84,7 +84,9 @@ class Explorer:
             c._add(z3.Implies(xz > 0, z3.And(rz > 0, rz < xz)))
             c._add(z3.Implies(xz < 0, z3.And(rz < 0, rz > xz)))
             # a few certified secant/tangent facts: arctan(x) >= x/(1+x^2)*... keep simple enclosures at breakpoints
-            for bp in (Fraction(-19, 100), Fraction(-1, 2), Fraction(1, 2), Fraction(1), Fraction(-1), Fraction(-9, 10)):
+            for bp in (Fraction(-1), Fraction(-9, 10), Fraction(-3, 4), Fraction(-1, 2), Fraction(-35, 100), Fraction(-1, 4),
+                       Fraction(-1925, 10000), Fraction(-19, 100), Fraction(-1, 10), Fraction(1, 10), Fraction(1, 4), Fraction(1, 2),
+                       Fraction(1), Fraction(2), Fraction(5)):
                 val = Fraction(math.atan(float(bp)))
                 lo = val - Fraction(1, 10**12)
                 hi = val + Fraction(1, 10**12)
